@@ -30,6 +30,7 @@
 #include <iostream>
 #include <vector>
 #include <algorithm>
+#include <functional>
 
 #include "constant.hh"
 #include "flag_saver.hh"
@@ -178,33 +179,40 @@ constant::operator< (constant that) const
   // We don't want to evaluate as equal two constants from different
   // domains just because they happen to have the same value.
 
-  auto const *dom1 = dom ();
-  auto const *dom2 = that.dom ();
-
   auto compare_magnitudes = [&] ()
     { return value () < that.value (); };
 
-  if (dom1 == dom2)
-    // Both domains are the same.  Possibly both are nullptr.
+  // Each constant is ordered first by a key domain, then by value.
+  // All arithmetic domains share one key, so that they compare by
+  // value among themselves and as one block against named constants.
+  // Named constants are keyed by the sub-domain that best fits them,
+  // so that e.g. a common STT_ constant is the same whichever
+  // arch-specific domain it came from.  Ordering by the key (instead
+  // of by whichever of the two original domains happen to be involved)
+  // is what makes the relation transitive.
+  auto key = [] (constant const &c) -> constant_dom const *
+    {
+      auto const *dom = c.dom ();
+      if (dom == nullptr)
+	return nullptr;
+      if (dom->safe_arith ())
+	return &dec_constant_dom;
+      return dom->most_enclosing (c.value ());
+    };
+
+  auto const *key1 = key (*this);
+  auto const *key2 = key (that);
+
+  if (key1 == key2)
+    // Same key domain.  Possibly both are nullptr.
     return compare_magnitudes ();
-  if (dom1 == nullptr && dom2 != nullptr)
-    return true;
-  if (dom1 != nullptr && dom2 == nullptr)
-    return false;
 
-  if (// If both domains are arithmetic, we can directly compare the
-      // values.
-      (dom1->safe_arith () && dom2->safe_arith ())
+  // A constant without domain sorts first.
+  if (key1 == nullptr || key2 == nullptr)
+    return key1 == nullptr;
 
-      // Maybe we can find a common sub-domain that covers them both.
-      // That has no effect for arithmetic domains, so we don't need
-      // to care if both are arithmetic or only one of them is.
-      || (dom1->most_enclosing (value ())
-	  == dom2->most_enclosing (that.value ())))
-    return compare_magnitudes ();
-
-  // Otherwise order the two constants by their domains.
-  return dom1 < dom2;
+  // Otherwise order the two constants by their key domains.
+  return std::less <constant_dom const *> () (key1, key2);
 }
 
 bool
